@@ -96,5 +96,5 @@ func (channel *Channel) exchangeDeclare(method *amqp.ExchangeDeclare) *amqp.Erro
 }
 
 func (channel *Channel) exchangeDelete(method *amqp.ExchangeDelete) *amqp.Error {
-	return nil
+	return amqp.NewChannelError(amqp.NotImplemented, "exchange.delete is not supported", method.ClassIdentifier(), method.MethodIdentifier())
 }
